@@ -155,7 +155,11 @@ def check_use_sites(r, case, par, text, what):
         f"(:action chk_{t} :parameters () :precondition (and (forall (?z - {t}) (and (mk ?z)))) :effect (and (r)))\n"
         f"(:action clr_{t} :parameters () :precondition (and) :effect (and (forall (?z - {t}) (when (mk ?z) (not (mk ?z))))))"
         for t in allt)
-    base = f"(:predicates (r) (mk ?x - object) {preds})\n(:functions {funcs})\n"
+    twin = "\n".join(
+        f"(:action two_{t}_{u} :parameters () :precondition (and (forall (?z - {t}) (and (mk ?z))) "
+        f"(forall (?z - {u}) (and (mk2 ?z)))) :effect (and (r)))" for t in allt for u in allt if t != u)
+    actions = actions + "\n" + twin
+    base = f"(:predicates (r) (mk ?x - object) (mk2 ?x - object) {preds})\n(:functions {funcs})\n"
     D = guard(parse_domain, domain_text(text, f"(:constants {consts})\n" + base))
     Dq = guard(parse_domain, domain_text(text, base + actions))
     if isinstance(D, Raised) or isinstance(Dq, Raised):
@@ -212,6 +216,25 @@ def check_use_sites(r, case, par, text, what):
                        f"{[t for t in in_range if t != missing]} (objects one per type) -> {got}, expected {want}",
                        want, str(got), tags=case["tags"] + [what])
                 return
+        # two quantifiers over the same variable name with different types in one precondition
+        for other in allt:
+            if other == rho:
+                continue
+            in2 = [t for t in allt if sub(t, other)]
+            for drop in (None, "mk", "mk2"):
+                m1 = [t for t in in_range if not (drop == "mk" and t == in_range[0])]
+                m2 = [t for t in in2 if not (drop == "mk2" and t == in2[-1])]
+                marks = " ".join(f"(mk o_{t})" for t in m1) + " " + " ".join(f"(mk2 o_{t})" for t in m2)
+                ptxt = f"(define (problem p) (:domain t) (:objects {objs}) (:init {marks}) (:goal (and)))"
+                prob = parse_problem(ptxt, Dq)
+                from pddl_plus_parser.multi_agent.common import create_initial_state
+                got = guard(lambda: operator(Dq, f"two_{rho}_{other}", [], prob.objects).is_applicable(create_initial_state(prob)))
+                r.count("transitions")
+                if got is not (drop is None):
+                    r.fail("forall-precondition-range", f"(:types {text}): (forall (?z - {rho}) (mk ?z)) and (forall (?z - {other}) "
+                           f"(mk2 ?z)) with mk on {m1}, mk2 on {m2} -> {got}, expected {drop is None}", drop is None, str(got),
+                           tags=case["tags"] + [what, "two-forall"])
+                    return
         # effect: start with every object marked, clr_rho must unmark exactly the objects in range
         ptxt = (f"(define (problem p) (:domain t) (:objects {objs}) (:init "
                 + " ".join(f"(mk o_{t})" for t in allt) + ") (:goal (and)))")
